@@ -394,6 +394,14 @@ def run_s2c(prop, tier, seed, opts):
                     notes.append("NOTE failure not reproduced alone nor after its predecessors: %s" % r.get("src"))
                     continue
                 V.log("  reproduced after %d earlier case(s) in the same process" % (len(context) - 1))
+            if context is None and r2["fails"] and r2["fails"][0].get("why") == "crash":
+                # a worker process that died: the verdict needs the death to repeat (alone, twice more) -- a single
+                # death under memory pressure or a misattributed one is a note
+                again = [confirm_alone(harness, scratch, line, cmd=cmd) for _ in range(2)]
+                if not all(a is not None and not a["pass"] and a["fails"][0].get("why") == "crash" for a in again):
+                    notes.append("NOTE a worker process died on this case and did not die again when it was re-run alone: %s | %s" % (
+                        r.get("src"), (r2["fails"][0].get("got") or "")[:200].replace("\n", " / ")))
+                    continue
             confirmed += 1
             path = V.save_replay(prop, line, r2, context)
             f0 = r2["fails"][0]
